@@ -124,7 +124,8 @@ def run_table_b(cards, table, frontend="wsgi"):
                     extra += 1
             out.append({"f": t["f"], "got": got, "err": err, "extra": extra})
             total = sum(1 for x in got if x)
-            for nres in (0, 1, 2, 10):
+            # (the smallest limit last: the next unlimited query follows a limited one)
+            for nres in (10, 2, 0, 1):
                 ln, lerr, _ = report(w, "/user/contacts/b/", query_xml(t["f"], limit=nres))
                 lnames = [n for n in (ln or []) if n.endswith(".vcf")]
                 full = {("c%04d.vcf" % i) for i, x in enumerate(got) if x}
